@@ -133,6 +133,9 @@ pub fn deriv_is_neg<const R: usize, const C: usize>(
     if is_absent(a) != is_absent(b) {
         return false;
     }
+    if is_absent(a) {
+        return true; // -absent == absent
+    }
     let (ea, eb) = (entries(a), entries(b));
     let mut ok = true;
     let mut j = 0;
